@@ -59,3 +59,11 @@ Theorem C01_ke_agreement :
         = Ok (sl_session_key st).
 Proof. exact @Layers.ke_agreement. Qed.
 Print Assumptions C01_ke_agreement.
+
+
+(* what is PROVED about each of the 20 concrete suites (hash output lengths, canonical element codecs, sizes):
+   the theorem above therefore holds for every one of them under the single hypothesis GroupLaws *)
+From OKE Require Import Codecs CodecsConcrete SuitesLaws.
+Theorem C01_laws_proved_for_the_20_suites : all_suites (fun _ _ _ _ CS => proved_laws CS).
+Proof. exact proved_laws_20. Qed.
+Print Assumptions C01_laws_proved_for_the_20_suites.
